@@ -34,6 +34,11 @@ CHECKS = {
    text="Every set of <=K intentions over sources {a, b, *} x {local, peer p1}, destinations {x, *} and actions {allow, deny, L7 permissions} is written to a real store in every order (service-intentions config entries with incrementally growing source lists, a read-modify-write variant that renames a stored source, and legacy rows in legacy mode). For every source in {a, b, c}, peer, destination in {x, y} and both defaults the decision obtained through IntentionMatchOne + IntentionDecision (from the destination side and from the source side) must equal the reference (single most specific match: destination specificity before source specificity, else default); match lists must be in precedence order and identical for all write orders.",
    note="K=3 quick, 4 thorough. L7 intentions are decided as 'has permissions' (no request is evaluated here; C14 evaluates requests).",
    design="§3 C13"),
+ "C15": dict(level="exploration", engine="E3 grid",
+   technique="bounded-exhaustive enumeration of config entry sets x write orders x evaluation contexts on the real compiler and store, in watchdog-supervised worker processes; closure, termination, determinism and validation-agreement oracles",
+   text="Every set of <=K entries (routers, splitters, resolvers with redirect / failover / subsets, service-defaults and proxy-defaults protocols, incl. mutual references, cycles and protocol mismatches) over services a, b, c is (A) compiled directly for every service and override protocol, three times, and (B) written to a real store in every order and then deleted entry by entry. Oracles: compilation terminates (25 s no-progress watchdog on worker subprocesses with an address-space limit); a chain that compiles has an existing start node, only existing next nodes and targets, every path ending at a resolver with a target, no cycle and no unreachable node; repeated compilations are identical; a rejected write leaves entries and their index unchanged; after every accepted write or delete every chain still compiles; equal stored sets give equal chains whatever the write order.",
+   note="K=3 quick (last element restricted to router/splitter/resolver), 4 thorough.",
+   design="§3 C15"),
  "C20": dict(level="fault_enumeration", engine="E3 grid",
    technique="exhaustive fault enumeration over a fresh archive: every byte position x flip values, every truncation, every member edit, gzip-level damage; reject-or-exact oracle with position classes",
    text="For each payload size and metadata variant a fresh archive is written by the real writer; then every byte position is flipped (5 patterns quick, all 255 values thorough), the archive is cut at every length, every member is removed, reordered, duplicated, shadowed by an injected copy, and an extra member of every tar entry type is injected at every position; SHA256SUMS lines are dropped, duplicated and extended. The same member edits, every gzip byte position and truncation, trailing garbage and concatenated gzip members go through the exported snapshot.Read. Every outcome must be reject, or accept with exactly the original state bytes and metadata; damage inside state.bin or meta.json content, a missing member or checksum line, a cut before the last member is complete, or any extra member must be rejected; no file handle may be returned together with an error.",
